@@ -265,8 +265,10 @@ def oracle_field(ctx, name, F, R, kind):
         kw.update(field=name)
         ctx.violation('%s %s' % (what, name), kw)
 
+    canon = {}
+
     def val(x):
-        """canonical int of an element + reducedness check"""
+        """canonical int of an element + reducedness / normalised-representation / eq / bool / hash consistency"""
         if type(x) is not F:
             bad('result-wrong-type', got=repr(x))
             return -1
@@ -277,7 +279,23 @@ def oracle_field(ctx, name, F, R, kind):
         else:
             if not (type(v) is P and v.degree() < d):
                 bad('result-not-reduced', got=repr(v))
-        return int(v)
+            rep = v.value                      # list of coefficients (odd p) or int bit mask (p = 2)
+            if isinstance(rep, list):
+                if (rep and not rep[-1]) or not all(isinstance(c_, int) and 0 <= c_ < p for c_ in rep):
+                    bad('result-not-normalised', got=repr(rep))
+            elif not (isinstance(rep, int) and 0 <= rep < q):
+                bad('result-not-normalised', got=repr(rep))
+        iv = int(v)
+        c = canon.get(iv)
+        if c is None:
+            c = F(iv)
+            if len(canon) < 70000:
+                canon[iv] = c
+        if bool(x) != (iv != 0):
+            bad('bool-inconsistent', value=iv, got=bool(x), rep=repr(getattr(v, 'value', v)))
+        if not (x == c) or (x != c) or hash(x) != hash(c):
+            bad('eq-hash-inconsistent', value=iv, eq=bool(x == c), rep=repr(getattr(v, 'value', v)))
+        return iv
 
     full = q <= 256
     if full:
@@ -464,6 +482,50 @@ def oracle_field(ctx, name, F, R, kind):
             if r[0] != 'err':
                 bad('shift-malformed-accepted %s%s' % (nm, ' odd-char-extension' if odd_ext else ''), a=i, got=str(r))
         ctx.case({'f': name, 'a': i, 'shift': 1}, nontrivial=i > 0, kind=kind + ' shift')
+
+    # --- zero operands on either side, every operator form: value 0, falsy, normalised, a*0 == 0*a
+    zforms = [('F(0)', lambda: F(0)), ('int 0', lambda: 0)]
+    if P is not None:
+        zforms += [('poly 0', lambda: P(0)), ('F(poly 0)', lambda: F(P(0)))]
+    else:
+        zforms += [('int p', lambda: p), ('int -p', lambda: -p)]
+    zset = sorted(set(list(aset) + [min(q - 1, p), min(q - 1, p + 1), min(q - 1, 2 * p), q - 1, q // 2]))
+    for i in zset:
+        for zn, zf in zforms:
+            def chk0(what, f):
+                r = catch(lambda: val(f()))
+                if r != ('ok', 0):
+                    bad('zero-operand-%s' % what, a=i, zero=zn, got=str(r))
+                checks[0] += 1
+            chk0('mul', lambda: F(i) * zf())
+            chk0('rmul', lambda: zf() * F(i))
+            chk0('imul', lambda: operator.imul(F(i), zf()))
+            chk0('imul-left', lambda: operator.imul(F(0), zf() if zn != 'F(0)' else F(i)))
+            chk0('mul-both-zero', lambda: F(0) * zf())
+            chk0('add-neg', lambda: (F(i) + zf()) - F(i))
+            chk0('sub-self', lambda: (F(i) - zf()) - F(i))
+            if i != 0:
+                chk0('div', lambda: zf() / F(i))
+                chk0('div-left', lambda: F(0) / F(i))
+                chk0('idiv', lambda: operator.itruediv(F(0), F(i)))
+            r1 = catch(lambda: F(i) * zf())
+            r2 = catch(lambda: zf() * F(i))
+            if r1[0] != 'ok' or r2[0] != 'ok' or not (r1[1] == r2[1]) or r1[1] != r2[1] or not (r1[1] == F(0)) or not (r1[1] == 0) \
+                    or bool(r1[1]) or bool(r2[1]) or hash(r1[1]) != hash(F(0)) or hash(r2[1]) != hash(F(0)):
+                bad('zero-operand-product-not-zero', a=i, zero=zn, left=str(r1), right=str(r2))
+            r = catch(lambda: F(i) / zf())
+            if r != ('err', 'ZeroDivisionError'):
+                bad('zero-operand-div-by-zero', a=i, zero=zn, got=str(r))
+            # the product keeps behaving like zero afterwards
+            z1 = F(i) * zf()
+            if val(z1 + F(i)) != i or val(z1 * F(i)) != 0 or val(-z1) != 0 or val(z1 ** 3) != 0 or val(z1 ** 0) != 1 \
+                    or catch(lambda: z1.reciprocal()) != ('err', 'ZeroDivisionError'):
+                bad('zero-operand-product-misbehaves', a=i, zero=zn)
+            checks[0] += 8
+        for n in (1, 2, 5, q - 1, q):
+            if val(F(0) ** n) != 0:
+                bad('zero-operand-pow', n=n)
+        ctx.case({'f': name, 'a': i, 'zero': len(zforms)}, nontrivial=i > 0, kind=kind + ' zero operand')
 
     # --- malformed operands
     for f in (lambda: one + 1.5, lambda: 1.5 * one, lambda: one / 'x', lambda: one ** 1.5, lambda: one ** one, lambda: 2 ** one,
